@@ -81,7 +81,7 @@ func genMergeCase(t *rapid.T) MergeCase {
 	nruns := rapid.IntRange(minRuns, 6).Draw(t, "nruns")
 	maxLen := 12
 	if vt.Thorough() {
-		maxLen = 60
+		maxLen = 40
 	}
 	pool := drawPool(t, zctx, tg, vg, rapid.SampledFrom([]int{1, 2, 4, 8, 20}).Draw(t, "m"))
 	ord := 0
@@ -314,7 +314,7 @@ func runMergeCase(c MergeCase) *vt.Outcome {
 
 var mergeProp = &vt.Prop[MergeCase]{
 	Name: "TestMerge",
-	Rule: "case = 1..6 runs of 0..12 (thorough 60) records {k?,r,_o} whose key k is drawn from a small pool of mixed-type values (nulls, missing), each run sorted by the repo's comparator " +
+	Rule: "case = 1..6 runs of 0..12 (thorough 40) records {k?,r,_o} whose key k is drawn from a small pool of mixed-type values (nulls, missing), each run sorted by the repo's comparator " +
 		"(asc/desc, nullsMax true/false) and fed in generated batch sizes to merge.New directly, or through the compiled query `fork (=> where r==0 => ...) | merge k`; " +
 		"output multiset = union of the runs and output non-decreasing under the comparator. Non-trivial: >=2 non-empty runs whose values interleave in the output.",
 	Gen: genMergeCase,
